@@ -210,3 +210,79 @@ def enum_discriminants(P, suffix):
         if q.endswith(suffix) and a["kind"] == "enum":
             return {v["name"]: v.get("discr") for v in a["variants"]}
     return None
+
+
+def block_geometry_rules(ck, P, rule="R-BLOCK-GEOM"):
+    """versatiles block definition: the stored local box and the block position determine the global box by
+    global = local + 256 * (x, y) per axis; the writer's constructor computes the inverse (x = min / 256, local = global - 256 x).
+    Decided on polynomial terms, so any consistent rewriting of the arithmetic passes and any wrong factor/axis fails."""
+    from . import affine as A
+    rd = [b for b in P.bodies if b["q"].endswith("block_definition::BlockDefinition::from_blob")]
+    nw = [b for b in P.bodies if b["q"].endswith("block_definition::BlockDefinition::new")]
+    if not ck.anchor(rule, "BlockDefinition::{from_blob,new}", rd + nw, 2):
+        return
+    B = 256
+    # ---- reader
+    b = rd[0]
+    env = A.Env()
+    A.run(ir.stmts_of(ir.fn_block(b)), env)
+    seq, _ = reader_seq(b, P)
+    names = {}
+    for prim, nm, node in seq:
+        names.setdefault(nm.split(".")[0], node)
+    calls = [n for n in ir.walk_nodes(b["body"]) if n.get("k") == "call" and (n.get("q") or "").endswith("TileBBox::new") and len(n["a"]) == 5]
+    lets = {}
+    for n in ir.walk_nodes(b["body"]):
+        if n.get("k") == "let" and "init" in n and n["pat"].get("k") == "bind":
+            lets[n["pat"]["name"]] = n["pat"]
+
+    def S(nm):
+        return A.local_sym(lets[nm]) if nm in lets else A.TOP
+    env0 = A.Env()   # read locals stay symbolic
+    glob = None
+    for c in calls:
+        ts = [A.ev(a, env0) for a in c["a"]]
+        if any(("sym", (lets[nm]["hid"], nm)) in m for t in ts[1:] if t is not A.TOP for m in t for nm in ("x", "y") if nm in lets):
+            glob = (c, ts)
+    ok = False
+    why = "no TileBBox::new combining the local box with the block position"
+    if glob is not None and all(nm in lets for nm in ("x", "y", "z", "x_min", "y_min", "x_max", "y_max")):
+        c, ts = glob
+        bx, by = A.mul(S("x"), A.const(B)), A.mul(S("y"), A.const(B))
+        want = [S("z"), A.add(S("x_min"), bx), A.add(S("y_min"), by), A.add(S("x_max"), bx), A.add(S("y_max"), by)]
+        ok = all(A.eq(t, w) for t, w in zip(ts, want))
+        why = "global box arguments are (%s)" % ", ".join(A.show(t) for t in ts)
+    ck.check(ok, rule, "reader|global-box", "reader: global box = (z, x_min + 256x, y_min + 256y, x_max + 256x, y_max + 256y)", "reader: %s" % why, ir.loc(glob[0]) if glob else ir.loc(b))
+    # the fields read first are z, x, y, then x_min, y_min, x_max, y_max (order is R-WIRE); the struct stores the same values
+    st = [n for n in ir.walk_nodes(b["body"]) if n.get("k") == "struct" and (n.get("q") or "").endswith("BlockDefinition")]
+    ok_off = False
+    if st:
+        off = [f for f in st[0]["fields"] if f["name"] == "offset"]
+        if off:
+            cn = [y for y in ir.walk_nodes(off[0]["e"]) if y.get("k") == "call" and (y.get("q") or "").endswith("TileCoord3::new")]
+            ok_off = bool(cn) and [ir.place_str(a) for a in cn[0]["a"]] == ["x", "y", "z"]
+    ck.check(ok_off, rule, "reader|offset", "reader: block position = TileCoord3::new(x, y, z) of the values read", "reader: block position is not (x, y, z)", ir.loc(b))
+    # ---- writer-side constructor
+    b = nw[0]
+    env = A.Env()
+    A.run(ir.stmts_of(ir.fn_block(b)), env)
+    calls = [n for n in ir.walk_nodes(b["body"]) if n.get("k") == "call" and (n.get("q") or "").endswith("TileBBox::new") and len(n["a"]) == 5]
+    pb = [x for p in b["params"] for x in ir.pat_binds(p)]
+    ok = False
+    why = "no local box construction"
+    if calls and pb:
+        Pb = (pb[0]["hid"], pb[0]["name"])
+
+        def F(f):
+            return A.sym((Pb, "." + f))
+        qx = A.atom(("div", A.freeze(F("x_min")), B))
+        qy = A.atom(("div", A.freeze(F("y_min")), B))
+        ts = [A.ev(a, env) for a in calls[0]["a"]]
+        want = [None, A.sub(F("x_min"), A.mul(qx, A.const(B))), A.sub(F("y_min"), A.mul(qy, A.const(B))), A.sub(F("x_max"), A.mul(qx, A.const(B))), A.sub(F("y_max"), A.mul(qy, A.const(B)))]
+        ok = all(A.eq(t, w) for t, w in list(zip(ts, want))[1:])
+        why = "local box arguments are (%s)" % ", ".join(A.show(t) for t in ts[1:])
+        # position = (x_min / 256, y_min / 256, level)
+        cn = [y for y in ir.walk_nodes(b["body"]) if y.get("k") == "call" and (y.get("q") or "").endswith("TileCoord3::new")]
+        okp = bool(cn) and A.eq(A.ev(cn[0]["a"][0], env), qx) and A.eq(A.ev(cn[0]["a"][1], env), qy) and A.eq(A.ev(cn[0]["a"][2], env), F("level"))
+        ck.check(okp, rule, "writer|position", "writer: block position = (x_min / 256, y_min / 256, level)", "writer: block position is not (x_min / 256, y_min / 256, level)", ir.loc(b))
+    ck.check(ok, rule, "writer|local-box", "writer: local box = global box - 256 * block position, per axis", "writer: %s" % why, ir.loc(b))
